@@ -1912,6 +1912,315 @@ fn space_history_tamper(ctx: &Ctx, fx: &Fx) {
 
 //------------ main -------------------------------------------------------------------------------
 
+//============ round 13: the number of earlier successful calls on ONE live signer =======================================
+//
+// Every other space makes a handful of messages per signer instance. Here one instance of the library's own
+// `SoftSigner` lives through N creations in a row (and, in one instance, through N rounds of other signer calls in
+// between), and every single message is judged by the ordinary oracle of the `created.*` spaces. Key generation costs
+// ~0.1 s per message, so the instances run on background threads of their own from the start of the explorer to its end.
+
+/// 0 and k-1, k, k+1 for every power of two k <= n: the call counts the scale rule singles out.
+fn power_marks(n: usize) -> BTreeSet<usize> {
+    let mut s = BTreeSet::new();
+    s.insert(0);
+    let mut k = 1usize;
+    while k <= n { for m in [k - 1, k, k + 1] { if m <= n { s.insert(m); } } k *= 2; }
+    s
+}
+
+#[derive(Clone, Copy, Debug, PartialEq, Eq)]
+enum CcPlan { MessagesOnly, KindsRotating, Interleaved }
+
+impl CcPlan {
+    fn name(self) -> &'static str {
+        match self { CcPlan::MessagesOnly => "messages-only", CcPlan::KindsRotating => "kinds-rotating", CcPlan::Interleaved => "interleaved" }
+    }
+    fn describe(self) -> &'static str {
+        match self {
+            CcPlan::MessagesOnly => "messages-only: identity key = handle #0 made by create_key (a second key made by create_key is never used); SignedMessage::create only, nothing else touches the signer",
+            CcPlan::KindsRotating => "kinds-rotating: pool key 1 imported as handle #0, identity key = pool key 0 imported as handle #1; message #i is made by SignedMessage::create / ProvisioningCms::create / PublicationCms::create for i mod 3 = 1 / 2 / 0, nothing else touches the signer",
+            CcPlan::Interleaved => "interleaved: pool keys 3 and 4 imported as handles #0 and #1, identity key = pool key 0 imported as handle #2, then #0 destroyed; before every message (ProvisioningCms::create / PublicationCms::create alternating) five other calls, their order rotating so that each of them is the call just before a message: import an unrelated key (key_from_pem + get_key_info), sign under the identity key, get_key_info of the identity key, sign under the newest unrelated key, destroy_key of the oldest unrelated key (then get_key_info / sign / destroy_key on it must fail); at the marked counts also create_key + get_key_info + sign under the generated key",
+        }
+    }
+    /// The kind of the message made after `i` earlier ones.
+    fn kind(self, i: usize) -> u8 {
+        match self { CcPlan::MessagesOnly => 0, CcPlan::KindsRotating => (i % 3) as u8, CcPlan::Interleaved => 1 + (i % 2) as u8 }
+    }
+}
+
+struct CcShared { pool_pub: Vec<PublicKey>, pool_p8: Vec<Vec<u8>>, timing: bool }
+
+#[derive(Default)]
+struct CcSummary {
+    created: u64,
+    after_earlier: u64,
+    validations: u64,
+    classes: BTreeMap<&'static str, u64>,
+    ops: BTreeMap<&'static str, u64>,
+    per_kind: [u64; 3],
+    failing_messages: u64,
+    first_failing: Option<usize>,
+    key_generations: u64,
+    handles_issued: usize,
+    revalidated: u64,
+    setup_failed: bool,
+}
+
+enum CcObj { Msg(SignedMessage), Prov(ProvisioningCms), Pubc(PublicationCms) }
+
+impl CcObj {
+    fn validate_at(&self, key: &PublicKey, t: Time) -> Result<(), String> {
+        match self { CcObj::Msg(m) => m.validate_at(key, t).map_err(|e| e.to_string()), CcObj::Prov(m) => m.validate_at(key, t).map_err(|e| e.to_string()), CcObj::Pubc(m) => m.validate_at(key, t).map_err(|e| e.to_string()) }
+    }
+    fn bytes(&self) -> Vec<u8> {
+        match self { CcObj::Msg(m) => m.to_captured().into_bytes().to_vec(), CcObj::Prov(m) => m.to_bytes().to_vec(), CcObj::Pubc(m) => m.to_bytes().to_vec() }
+    }
+}
+
+/// The window handed to SignedMessage::create for the message made after `i` earlier ones: three in four use the same
+/// window (whatever is remembered per window is found again), every fourth a window of its own.
+fn cc_window(i: usize) -> (i64, i64) { if i % 4 == 3 { (T0 - W + i as i64, T0 + W + i as i64) } else { (T0 - W, T0 + W) } }
+
+/// Makes the message that follows `i` earlier ones: (object as created, what it is, the window it was given if the caller chooses it).
+fn cc_create(kind: u8, i: usize, key: &SoftKeyId, signer: &SoftSigner, sh: &CcShared) -> Result<(CcObj, String, Option<(i64, i64)>), String> {
+    match kind {
+        0 => {
+            let data: Vec<u8> = (0..i).map(|j| b"<msg/>\n"[j % 7]).collect();
+            let (nb, na) = cc_window(i);
+            let m = SignedMessage::create(Bytes::from(data), Validity::new(pki::time(nb), pki::time(na)), key, signer).map_err(|e| e.to_string())?;
+            Ok((CcObj::Msg(m), format!("SignedMessage::create content={i}B window=[{nb},{na}]"), Some((nb, na))))
+        }
+        1 => {
+            let (sender, recipient) = (SenderHandle::from_str("child").unwrap(), RecipientHandle::from_str("parent").unwrap());
+            let (msg, what) = if i % 4 < 2 { (provisioning::Message::list(sender, recipient), "ProvisioningCms::create(list)") }
+                else { (provisioning::Message::revoke(sender, recipient, RevocationRequest::new("rc0".into(), sh.pool_pub[K_THIRD].key_identifier())), "ProvisioningCms::create(revoke)") };
+            let m = ProvisioningCms::create(msg, key, signer).map_err(|e| e.to_string())?;
+            Ok((CcObj::Prov(m), what.to_string(), None))
+        }
+        _ => {
+            let (msg, what) = if i % 4 < 2 { (publication::Message::list_query(), "PublicationCms::create(list query)".to_string()) } else {
+                let body: Vec<u8> = (0..i).map(|j| (j * 31 + 7) as u8).collect();
+                let mut d = PublishDelta::empty();
+                d.add_publish(Publish::new(Some(format!("tag-{i}")), pki::rsync(&format!("rsync://example.net/repo/ca/obj{i}.roa")), Base64::from_content(&body)));
+                (publication::Message::delta(d), format!("PublicationCms::create(publish of {i} octets)"))
+            };
+            let m = PublicationCms::create(msg, key, signer).map_err(|e| e.to_string())?;
+            Ok((CcObj::Pubc(m), what, None))
+        }
+    }
+}
+
+/// The ordinary oracle of the `created.*` spaces on one message: validates <=> identity key and instant inside the window.
+/// The object as created at the 10 instants under every key; its encoding re-decoded (strict, relaxed) at notBefore, the
+/// midpoint and notAfter and (typed decoder) at all 10 instants under every key. At most one failure per oracle is recorded.
+/// Returns whether all held.
+#[allow(clippy::too_many_arguments)]
+fn cc_judge(wit: &dyn Fn(&str) -> String, obj: &CcObj, bytes: &[u8], via: Via, nb: i64, na: i64, identity: &PublicKey, others: &[(String, PublicKey)], sum: &mut CcSummary) -> bool {
+    let mut failed: BTreeSet<&'static str> = BTreeSet::new();
+    let mut judge = |v: Verdict, is_identity: bool, inside: bool, w: &dyn Fn() -> String, sum: &mut CcSummary| {
+        sum.validations += 1;
+        *sum.classes.entry(v.class()).or_insert(0) += 1;
+        let want = is_identity && inside;
+        let (oracle, detail) = match &v {
+            Verdict::Panic(p) => ("C10.no_panic", p.clone()),
+            _ if want && !v.accepted() => ("C10.signer.call_count.own_key", format!("the message does not validate under the identity key it was created for, at an instant inside its validity: {}", trunc(&v.show(), 200))),
+            _ if !want && v.accepted() => if is_identity { ("C10.signer.call_count.outside_window", "the message validates at an instant outside its validity".to_string()) }
+                else { ("C10.signer.call_count.other_key", "the message validates under a key it was not created for".to_string()) },
+            _ => return,
+        };
+        if failed.insert(oracle) { fail(oracle, w(), detail) }
+    };
+    let keys: Vec<(&str, &PublicKey, bool)> = std::iter::once(("identity", identity, true)).chain(others.iter().map(|(n, k)| (n.as_str(), k, false))).collect();
+    // The wall-clock kinds keep the sub-second part of the clock in the object as created and write whole seconds: the
+    // two windows differ by less than a second at either end. The object as created is therefore not asked at the four
+    // instants that fall into that difference (notBefore, +1ns; notAfter+1ns, +0.5s); its encoding is asked at all ten.
+    let wall_clock = via != Via::Strict;
+    // the midpoint first: it is the instant a reader of the witness expects
+    let mut instants: Vec<(usize, (i64, u32))> = window_instants(nb, na).into_iter().enumerate().collect();
+    let mid = instants.remove(MID);
+    instants.insert(0, mid);
+    for (ti, (t, ns)) in instants {
+        let inside = (nb, 0) <= (t, ns) && (t, ns) <= (na, 0);
+        for (kname, key, is_id) in &keys {
+            if !(wall_clock && matches!(ti, 2 | 3 | 7 | 8)) {
+                let v = match guard(|| obj.validate_at(key, at(t, ns))) { Ok(Ok(())) => Verdict::Accept, Ok(Err(e)) => Verdict::Invalid(e), Err(p) => Verdict::Panic(p) };
+                judge(v, *is_id, inside, &|| wit(&format!("t=notBefore{:+}s+{ns}ns key={kname} route=as-created", t - nb)), sum);
+            }
+            let marked = ti == 2 || ti == MID || ti == 6;
+            if marked || wall_clock {
+                let mut routes = if marked { vec![Via::Strict, Via::Relaxed] } else { vec![] };
+                if wall_clock { routes.insert(0, via) }
+                for r in routes {
+                    let v = run_ns(bytes, key, t, ns, r);
+                    judge(v, *is_id, inside, &|| wit(&format!("t=notBefore{:+}s+{ns}ns key={kname} route=encoded-then-decoded-{r:?}", t - nb)), sum);
+                }
+            }
+        }
+    }
+    failed.is_empty()
+}
+
+/// One signer instance living through `n` creations. Everything that calls the library is guarded.
+fn cc_run(plan: CcPlan, n: usize, sh: &CcShared) -> CcSummary {
+    let thread_cpu = || { let mut ts = libc::timespec { tv_sec: 0, tv_nsec: 0 }; unsafe { libc::clock_gettime(libc::CLOCK_THREAD_CPUTIME_ID, &mut ts); } ts.tv_sec as f64 + ts.tv_nsec as f64 / 1e9 };
+    let t_wall = std::time::Instant::now();
+    let mut sum = CcSummary::default();
+    let signer = SoftSigner::new();
+    let inst = format!("signer.call_count instance={}", plan.name());
+    // --- set-up: handles in issue order; the model records the public key of each handle when it is issued
+    let import = |j: usize| -> Result<(SoftKeyId, PublicKey), String> {
+        let id = guard(|| signer.key_from_pem(&sh.pool_p8[j])).map_err(|p| format!("key_from_pem panicked: {p}"))?.map_err(|e| format!("key_from_pem(pool key {j}) fails: {e}"))?;
+        let got = guard(|| signer.get_key_info(&id)).map_err(|p| format!("get_key_info panicked: {p}"))?.map_err(|e| format!("get_key_info on the handle just issued for pool key {j} fails: {e}"))?;
+        if got != sh.pool_pub[j] { return Err(format!("get_key_info on the handle just issued for pool key {j} returns another key than the one handed in")) }
+        Ok((id, got))
+    };
+    let generate = || -> Result<(SoftKeyId, PublicKey), String> {
+        let id = guard(|| signer.create_key(PublicKeyFormat::Rsa)).map_err(|p| format!("create_key panicked: {p}"))?.map_err(|e| format!("create_key fails: {e}"))?;
+        let got = guard(|| signer.get_key_info(&id)).map_err(|p| format!("get_key_info panicked: {p}"))?.map_err(|e| format!("get_key_info on the handle create_key just issued fails: {e}"))?;
+        Ok((id, got))
+    };
+    // unrelated keys held by the signer: (handle, recorded public key, label), oldest first
+    let mut live: std::collections::VecDeque<(SoftKeyId, PublicKey, String)> = Default::default();
+    let mut last_destroyed: Option<(PublicKey, String)> = None;
+    let setup: Result<(SoftKeyId, PublicKey), String> = (|| match plan {
+        CcPlan::MessagesOnly => {
+            let (id, pk) = generate()?;
+            let (other, opk) = generate()?;
+            sum.key_generations += 2; sum.handles_issued += 2;
+            if opk == pk { return Err("the second create_key returns a handle for the key of the first".into()) }
+            live.push_back((other, opk, "the second key made by create_key (handle #1)".into()));
+            Ok((id, pk))
+        }
+        CcPlan::KindsRotating => {
+            let (o, opk) = import(K_OTHER)?;
+            live.push_back((o, opk, "pool key 1 (handle #0)".into()));
+            sum.handles_issued += 2;
+            import(K_PEER)
+        }
+        CcPlan::Interleaved => {
+            let (u0, _) = import(3)?;
+            let (u1, pk1) = import(4)?;
+            let idk = import(K_PEER)?;
+            sum.handles_issued += 3;
+            guard(|| signer.destroy_key(&u0)).map_err(|p| format!("destroy_key panicked: {p}"))?.map_err(|e| format!("destroy_key on the live handle #0 fails: {e}"))?;
+            last_destroyed = Some((sh.pool_pub[3].clone(), "pool key 3 (handle #0, destroyed)".into()));
+            live.push_back((u1, pk1, "pool key 4 (handle #1)".into()));
+            Ok(idk)
+        }
+    })();
+    let (identity, identity_pub) = match setup {
+        Ok(x) => x,
+        Err(e) => { fail("C10.signer.key_info", format!("{inst} set-up"), e); sum.setup_failed = true; return sum }
+    };
+    let marks = power_marks(n);
+    let mut kept: Vec<(Vec<u8>, Via, i64, usize)> = Vec::with_capacity(n);
+    let alg = RpkiSignatureAlgorithm::default;
+    for i in 0..n {
+        let wit_msg = |what: &str, extra: &str| format!("{inst} message #{:04} on this signer ({i} earlier successful creations): {what} {extra}", i + 1);
+        // --- the other calls of the interleaved instance
+        if plan == CcPlan::Interleaved {
+            let mut order: Vec<usize> = (0..5).map(|k| (k + i) % 5).collect();
+            if marks.contains(&i) { order.insert(0, 5) }
+            for op in order {
+                let opname: &'static str = ["import-unrelated-key", "sign-under-identity-key", "get_key_info-of-identity-key", "sign-under-unrelated-key", "destroy-oldest-unrelated-key", "create_key"][op];
+                let handles_before = sum.handles_issued;
+                let wit_op = || format!("{inst} before message #{:04} ({i} earlier successful creations, {handles_before} handles issued so far): {opname}", i + 1);
+                let r: Result<Result<(), (&'static str, String)>, String> = guard(|| match op {
+                    0 => {
+                        let j = 3 + i % 5;
+                        let (id, pk) = import(j).map_err(|e| ("C10.signer.key_info", e))?;
+                        if pk == identity_pub { return Err(("C10.signer.key_info", format!("the handle just issued for pool key {j} names the identity key"))) }
+                        live.push_back((id, pk, format!("pool key {j} (handle #{})", sum.handles_issued)));
+                        sum.handles_issued += 1;
+                        Ok(())
+                    }
+                    1 => {
+                        let data = format!("bare data signed under the identity key before message {i}");
+                        let sig = signer.sign(&identity, alg(), data.as_bytes()).map_err(|e| ("C10.signer.sign", format!("sign under the live identity handle fails: {e}")))?;
+                        if !verify_raw(&identity_pub, data.as_bytes(), sig.value().as_ref()) { return Err(("C10.signer.sign", "the signature made under the identity handle does not verify (aws-lc directly) under the public key recorded for it".into())) }
+                        for (_, pk, label) in live.iter() { if *pk != identity_pub && verify_raw(pk, data.as_bytes(), sig.value().as_ref()) { return Err(("C10.signer.sign", format!("the signature made under the identity handle verifies under {label}"))) } }
+                        Ok(())
+                    }
+                    2 => match signer.get_key_info(&identity) {
+                        Ok(pk) if pk == identity_pub => Ok(()),
+                        Ok(pk) => Err(("C10.signer.key_info", format!("get_key_info of the identity handle no longer returns the key recorded when the handle was issued{}", live.iter().find(|(_, k, _)| *k == pk).map(|(_, _, l)| format!(", but {l}")).unwrap_or_default()))),
+                        Err(e) => Err(("C10.signer.key_info", format!("get_key_info of the live identity handle fails: {e}"))),
+                    },
+                    3 => {
+                        let Some((id, pk, label)) = live.back() else { return Ok(()) };
+                        let data = format!("bare data signed under an unrelated key before message {i}");
+                        let sig = signer.sign(id, alg(), data.as_bytes()).map_err(|e| ("C10.signer.sign", format!("sign under the live handle of {label} fails: {e}")))?;
+                        if !verify_raw(pk, data.as_bytes(), sig.value().as_ref()) { return Err(("C10.signer.sign", format!("the signature made under the handle of {label} does not verify under the public key recorded for it"))) }
+                        if verify_raw(&identity_pub, data.as_bytes(), sig.value().as_ref()) { return Err(("C10.signer.sign", format!("the signature made under the handle of {label} verifies under the identity key"))) }
+                        Ok(())
+                    }
+                    4 => {
+                        if live.len() < 2 { return Ok(()) }
+                        let (id, pk, label) = live.pop_front().unwrap();
+                        signer.destroy_key(&id).map_err(|e| ("C10.signer.destroyed", format!("destroy_key on the live handle of {label} fails: {e}")))?;
+                        last_destroyed = Some((pk, format!("{label}, destroyed")));
+                        if signer.get_key_info(&id).is_ok() { return Err(("C10.signer.destroyed", format!("get_key_info on the destroyed handle of {label} returns a key"))) }
+                        if signer.sign(&id, alg(), b"x".as_slice()).is_ok() { return Err(("C10.signer.destroyed", format!("sign under the destroyed handle of {label} succeeds"))) }
+                        if signer.destroy_key(&id).is_ok() { return Err(("C10.signer.destroyed", format!("destroy_key on the already destroyed handle of {label} succeeds"))) }
+                        Ok(())
+                    }
+                    _ => {
+                        let (id, pk) = generate().map_err(|e| ("C10.signer.key_info", e))?;
+                        sum.key_generations += 1;
+                        let label = format!("a key made by create_key (handle #{})", sum.handles_issued);
+                        sum.handles_issued += 1;
+                        if pk == identity_pub || sh.pool_pub.contains(&pk) { return Err(("C10.signer.key_info", format!("the handle create_key just issued names a key the signer was given earlier ({label})"))) }
+                        let data = format!("bare data signed under a generated key before message {i}");
+                        let sig = signer.sign(&id, alg(), data.as_bytes()).map_err(|e| ("C10.signer.sign", format!("sign under the live handle of {label} fails: {e}")))?;
+                        if !verify_raw(&pk, data.as_bytes(), sig.value().as_ref()) { return Err(("C10.signer.sign", format!("the signature made under the handle of {label} does not verify under the public key get_key_info returned for it"))) }
+                        live.push_back((id, pk, label));
+                        Ok(())
+                    }
+                });
+                *sum.ops.entry(opname).or_insert(0) += 1;
+                match r { Ok(Ok(())) => {} Ok(Err((o, d))) => fail(o, wit_op(), d), Err(p) => fail("C10.no_panic", wit_op(), p) }
+            }
+        }
+        // --- the message
+        let kind = plan.kind(i);
+        let made = guard(|| cc_create(kind, i, &identity, &signer, sh).map(|(obj, what, given)| { let bytes = obj.bytes(); (obj, what, given, bytes) }));
+        let (obj, what, given, bytes) = match made {
+            Ok(Ok(x)) => x,
+            Ok(Err(e)) => { fail("C10.signer.call_count.create", wit_msg(MSG_KINDS[kind as usize], ""), format!("creating a message under the live identity handle fails: {e}")); sum.failing_messages += 1; sum.first_failing.get_or_insert(i); continue }
+            Err(p) => { fail("C10.no_panic", wit_msg(MSG_KINDS[kind as usize], "create"), p); sum.failing_messages += 1; sum.first_failing.get_or_insert(i); continue }
+        };
+        let via = match kind { 0 => Via::Strict, 1 => Via::Provisioning, _ => Via::Publication };
+        // the window: the one handed in, or (wall-clock kinds) the one read back from the message: both embedded windows must hold
+        let (nb, na) = match given {
+            Some(w) => w,
+            None => match guard(|| embedded_windows(&bytes)) {
+                Ok(((nb, na), (tu, nu))) if nb.max(tu) <= na.min(nu) => (nb.max(tu), na.min(nu)),
+                Ok(((nb, na), (tu, nu))) => { fail("C10.created.window", wit_msg(&what, ""), format!("EE window [{nb},{na}] and CRL window [{tu},{nu}] have no instant in common")); sum.failing_messages += 1; sum.first_failing.get_or_insert(i); continue }
+                Err(p) => { fail("C10.signer.call_count.own_key", wit_msg(&what, ""), format!("the created message cannot be read by the independent TLV reader: {p}")); sum.failing_messages += 1; sum.first_failing.get_or_insert(i); continue }
+            },
+        };
+        let mut others: Vec<(String, PublicKey)> = vec![("pool key 2 (never given to this signer)".to_string(), sh.pool_pub[K_THIRD].clone())];
+        if let Some((_, pk, label)) = live.back() { others.push((format!("{label}, live in this signer"), pk.clone())) }
+        if let Some((pk, label)) = &last_destroyed { others.push((label.clone(), pk.clone())) }
+        others.retain(|(_, k)| *k != identity_pub);
+        sum.created += 1; sum.per_kind[kind as usize] += 1;
+        if i > 0 { sum.after_earlier += 1 }
+        let ok = cc_judge(&|extra| wit_msg(&what, extra), &obj, &bytes, via, nb, na, &identity_pub, &others, &mut sum);
+        if !ok { sum.failing_messages += 1; sum.first_failing.get_or_insert(i); }
+        kept.push((bytes, via, nb + (na - nb) / 2, i));
+    }
+    // --- every message once more, after all the others were made
+    for (bytes, via, mid, i) in &kept {
+        let v = run(bytes, &identity_pub, *mid, *via);
+        sum.revalidated += 1;
+        if !v.accepted() && sum.first_failing.is_none_or(|f| f > *i) {
+            fail("C10.signer.call_count.own_key", format!("{inst} message #{:04} validated once more after all {n} creations, t=middle of its window key=identity", i + 1), format!("the message no longer validates: {}", trunc(&v.show(), 200)));
+        }
+    }
+    if sh.timing { eprintln!("timing: signer.call_count instance {} ({n} messages, {} key generations besides): {:.1} s thread CPU, {:.1} s wall", plan.name(), sum.key_generations, thread_cpu(), t_wall.elapsed().as_secs_f64()) }
+    sum
+}
+
 fn main() {
     if std::env::args().any(|a| a == ENV_CHILD_ARG) { env_child() }
     let t_start = std::time::Instant::now();
@@ -1924,6 +2233,21 @@ fn main() {
     let fx = Fx { content: publication::Message::list_query().to_xml_bytes().to_vec(), peer: peer.clone(), s };
     let s = &fx.s;
     let thorough = ctx.tier.is_thorough();
+
+    //--- (f) round 13: started first, joined last - one signer instance per background thread (see cc_run)
+    let cc_space = ctx.space("signer.call_count",
+        "the NUMBER OF EARLIER SUCCESSFUL CALLS on one live participant: N messages created in a row on ONE instance of the library's own rpki::crypto::softsigner::SoftSigner (sign_one_off generating a real RSA key per message), every prefix length 0, 1, 2, ... N-1 being one case (so every count up to the bound, in particular k-1, k, k+1 around every power of two), and EVERY message judged by the ordinary oracle of the created.* spaces: the object as created at 10 instants (notBefore-1s, -1ns, notBefore, +1ns, midpoint, notAfter-1ns, notAfter, +1ns, +0.5s, +1s; the wall-clock kinds keep the clock's sub-second part in memory and write whole seconds, so their object as created is not asked at the four instants inside that difference) and its encoding re-decoded (SignedMessage strict, relaxed at notBefore / midpoint / notAfter; the typed decoder at all 10 instants), under the identity key (public key recorded when the handle was issued; for imported keys known independently) and under 2-3 other keys (one never given to the signer, one live in the same signer, one destroyed in it): validates <=> identity key and instant inside the window (wall-clock kinds: the window read back from the message); at the end every message is validated once more. Three instances, each on an OS thread of its own for the whole run of the explorer: (1) messages-only: identity key = handle #0 made by create_key, SignedMessage::create only (content of i octets; three in four with the same window, every fourth with a window of its own), nothing else touches the signer; (2) kinds-rotating: identity key imported as handle #1, SignedMessage / ProvisioningCms (list, revoke) / PublicationCms (list query, publish of i octets) creation rotating on the one instance; (3) interleaved: identity key imported as handle #2 behind a destroyed handle, ProvisioningCms / PublicationCms alternating, and before every message five other signer calls (import an unrelated key with key_from_pem + get_key_info, sign under the identity key, get_key_info of the identity key, sign under the newest unrelated key, destroy_key of the oldest unrelated key followed by the three calls that must now fail) in an order rotating with the count, plus create_key + get_key_info + sign at the counts k-1, k, k+1 of every power of two - each judged against the model (handle -> public key recorded at issue, destroyed or not; signatures verified by aws-lc directly), so that the number of handles issued grows with the count too. quick: N = 260 per instance (crosses 256/257); thorough: N = 2050 for (1), 1026 for (2) and (3). evaluations = messages created and judged; non-trivial = messages created after at least one earlier message on the same instance");
+    let cc_plans: Vec<(CcPlan, usize)> = vec![(CcPlan::MessagesOnly, ctx.tier.pick(260, 2050)), (CcPlan::KindsRotating, ctx.tier.pick(260, 1026)), (CcPlan::Interleaved, ctx.tier.pick(260, 1026))];
+    let cc_threads: Vec<(CcPlan, usize, Option<std::thread::JoinHandle<CcSummary>>)> = {
+        let pool_p8: Vec<Vec<u8>> = (0..8).map(|i| std::fs::read(format!("{}/keys/rsa-{i}.p8", verif_dir())).unwrap_or_default()).collect();
+        if pool_p8.iter().any(|k| k.is_empty()) { ctx.machinery_error("signer.call_count: cannot read the pool keys") }
+        let sh = std::sync::Arc::new(CcShared { pool_pub: (0..8).map(|i| s.public(i)).collect(), pool_p8, timing: std::env::var_os("C10_TIMING").is_some() });
+        cc_plans.iter().map(|&(plan, n)| {
+            let sh = sh.clone();
+            (plan, n, std::thread::Builder::new().name(format!("call-count-{}", plan.name())).spawn(move || cc_run(plan, n, &sh)).ok())
+        }).collect()
+    };
+
     let perms: Vec<[usize; 3]> = permutations(3).into_iter().map(|p| [p[0], p[1], p[2]]).collect();
     let keys = [(K_PEER, "signing"), (K_OTHER, "other-1"), (K_THIRD, "other-2")];
     // the peer's identity certificate, as a relying party would hold it
@@ -2927,6 +3251,37 @@ fn main() {
     space_attrs_relation(&ctx, &fx); lap("attrs.oid_relation");
     space_environment(&ctx, &fx, &subj); lap("environment");
     space_time_interactions(&ctx, &fx); lap("interactions.time");
+
+    // join the long-lived signer instances
+    {
+        let sp = cc_space;
+        let mut completed = true;
+        let mut lines: Vec<String> = Vec::new();
+        let (mut ops, mut keygens, mut reval) = (BTreeMap::<&'static str, u64>::new(), 0u64, 0u64);
+        for (plan, n, h) in cc_threads {
+            let sum = match h.map(|h| h.join()) {
+                Some(Ok(sum)) => sum,
+                _ => { ctx.machinery_error(format!("signer.call_count: the thread of instance {} could not be started or died outside the guards", plan.name())); completed = false; continue }
+            };
+            sp.evals(sum.created); sp.nontrivial(sum.after_earlier);
+            sp.merge_outcomes(&sum.classes);
+            for (k, v) in &sum.ops { *ops.entry(k).or_insert(0) += v }
+            keygens += sum.key_generations + sum.created; reval += sum.revalidated;
+            if sum.setup_failed || sum.created + sum.failing_messages < n as u64 { completed = false }
+            lines.push(format!("{}: {} of {n} messages created and judged ({} SignedMessage, {} ProvisioningCms, {} PublicationCms), {} validations, {} handles issued, {} messages failing{}", plan.name(), sum.created, sum.per_kind[0], sum.per_kind[1], sum.per_kind[2], sum.validations, sum.handles_issued,
+                sum.failing_messages, sum.first_failing.map(|f| format!(" (the first one after {f} earlier creations)")).unwrap_or_default()));
+        }
+        sp.set("instances", serde_json::json!(cc_plans.iter().map(|(p, _)| p.describe()).collect::<Vec<_>>()));
+        sp.set("per_instance", serde_json::json!(lines));
+        sp.set("other_signer_calls_interleaved", serde_json::json!(ops));
+        sp.set("rsa_key_generations", serde_json::json!(keygens));
+        sp.set("messages_validated_once_more_at_the_end", serde_json::json!(reval));
+        sp.set("marked_counts", serde_json::json!(power_marks(cc_plans[0].1).into_iter().collect::<Vec<_>>()));
+        sp.sample_str(|| "signer.call_count instance=messages-only message #0257 on this signer (256 earlier successful creations): SignedMessage::create content=256B window=[1699999700,1700000300] t=notBefore+300s+0ns key=identity route=as-created -> validated".to_string());
+        sp.sample_str(|| "signer.call_count instance=interleaved before message #0129 (128 earlier successful creations, 139 handles issued so far): destroy-oldest-unrelated-key -> destroyed, the handle is refused afterwards".to_string());
+        sp.done(completed, &format!("every count of earlier creations 0..{} on instance (1), 0..{} on (2) and (3); one instance each", cc_plans[0].1 - 1, cc_plans[1].1 - 1));
+        lap("signer.call_count joined");
+    }
 
     flush_fails(&ctx);
     ctx.finish();
